@@ -568,12 +568,18 @@ def parse_harness(out):
     return res
 
 
+HARNESS_INF = [None]
+
+
 def run_harness(exe, path, ncases, rundir, env=None, timeout=3000):
     """runs all cases; when the process dies, restarts behind the case that killed it.  -> (blocks, crashes)"""
     blocks, crashes = {}, []
     first = 0
     while first < ncases:
         rc, out, err = vlib.sh([exe, "run", path, str(first), rundir], timeout=timeout, env=env)
+        for l in out.splitlines()[:3]:
+            if l.startswith("INF "):
+                HARNESS_INF[0] = l.split()[1]
         b = parse_harness(out)
         blocks.update(b)
         if rc == 0:
@@ -826,7 +832,18 @@ def main():
     hf = os.path.join(rundir, "C09.%d.h.cases" % os.getpid())
     mf = os.path.join(rundir, "C09.%d.m.cases" % os.getpid())
     write_cases(hf, cases)
-    blocks, crashes = run_harness(exe, hf, len(cases), rundir)
+    # the build cache may be collected while a long run is under way: work on a private copy of the binary
+    import shutil
+    import time
+    exe_copy = os.path.join(rundir, "C09.%d.exe" % os.getpid())
+    shutil.copy2(exe, exe_copy)
+    t_h = time.time()
+    blocks, crashes = run_harness(exe_copy, hf, len(cases), rundir)
+    try:
+        os.remove(exe_copy)
+    except OSError:
+        pass
+    vlib.log("[C09] harness: %d cases in %.0fs (%d restarts)" % (len(cases), time.time() - t_h, len(crashes)))
     for k, rc, err in crashes:
         c = cases[k] if k < len(cases) else {}
         ck.violation("harness-died:%s" % c.get("mode", "?"), "the implementation killed the harness process (rc=%d) in case %d" % (rc, k),
@@ -863,7 +880,10 @@ def main():
                     elif l.startswith("BI ") and "stored:" in l and a is not None:
                         fe = parse_fields(l.split("stored:")[0])
                         put("%d.%s" % (k, step), fe.get("R", ""), fe.get("C", ""), internal_of_user(user_lp_of(a)))
-    rc2, mout, merr = vlib.sh([model, mf], timeout=3000)
+    t_m = time.time()
+    rc2, mout, merr = vlib.sh([model, mf], timeout=900)
+    vlib.log("[C09] model: %.0fs" % (time.time() - t_m))
+    t_c = time.time()
     if rc2 != 0:
         ck.violation("model-crash", "model runner failed rc=%d: %s" % (rc2, merr[-400:]), {"kind": "model"}, no_input=True)
     mblocks, cur = {}, None
@@ -894,7 +914,9 @@ def main():
             r["ops"] = c["ops"] if upto is None else c["ops"][:upto]
         return r
 
-    inf_line = [l for l in (blocks.get(min(blocks)) if blocks else [])]
+    if HARNESS_INF[0] is not None and (HARNESS_INF[0] != INF_TOK or locals().get("model_inf", INF_TOK) != INF_TOK):
+        ck.violation("infinity-constant", "soplex::infinity is %s in the implementation, %s in the model (INF_M, INF_E of ScalingModel.v), %s in the generators"
+                     % (HARNESS_INF[0], locals().get("model_inf"), INF_TOK), {"kind": "constant"}, no_input=True)
     for k, c in enumerate(cases):
         ls = blocks.get(k)
         if not ls:
@@ -911,6 +933,7 @@ def main():
         if k < 3:
             ck.sample({"mode": c["mode"], "scaler": c["scaler"], "lp": lp_line(c["lp"])[:300], "ops": c.get("ops", [])[:6]})
 
+    vlib.log("[C09] comparison and oracles: %.0fs" % (time.time() - t_c))
     if ck.tier == "thorough" and not ck.args.replay:
         coq_sample(ck, cases, blocks)
         asan_run(ck, cases, rundir)
@@ -1020,11 +1043,15 @@ def asan_run(ck, cases, rundir, limit=200):
     path = os.path.join(rundir, "C09.%d.asan.cases" % os.getpid())
     write_cases(path, sel)
     env = dict(os.environ, C09_NOHANDLER="1", ASAN_OPTIONS="detect_leaks=0", UBSAN_OPTIONS="print_stacktrace=0")
-    blocks, crashes = run_harness(exe, path, len(sel), rundir, env=env, timeout=3000)
-    try:
-        os.remove(path)
-    except OSError:
-        pass
+    import shutil
+    exe_copy = os.path.join(rundir, "C09.%d.asan.exe" % os.getpid())
+    shutil.copy2(exe, exe_copy)
+    blocks, crashes = run_harness(exe_copy, path, len(sel), rundir, env=env, timeout=3000)
+    for q in (path, exe_copy):
+        try:
+            os.remove(q)
+        except OSError:
+            pass
     ck.cov["asan"] = "%d histories under ASan+UBSan, %d aborted by the sanitizer" % (len(sel), len(crashes))
     for k, rc, err in crashes:
         c = sel[k] if k < len(sel) else {}
